@@ -142,6 +142,7 @@ fn answer(line: &str) -> String {
                 guarded(|| (probe.is_match(&path) as u8).to_string())
             }
         }
+        "K" => std::thread::available_parallelism().map(|n| n.get()).unwrap_or(1).to_string(),
         "R" => {
             // R <kind>: BenchArgs probe (type-erased argument slice): names and the value each index receives
             let kind = it.next().unwrap_or("i64").to_owned();
